@@ -12,7 +12,28 @@ open Driver ScionTime.Wire ScionTime.NtpPacket ScionTime.ServerReply
                                       well-formed request that follows on the same socket gets no reply)
   ip.seq <hex>,<hex>,… nts=<0|1>  -> ok answered=<0/1 per datagram> extra=0 sentinel=answered shape=ok
                                      (datagrams sent from one client socket to one listener socket, in order)
+  ip.hist <hex>,<hex>,… nv=<view>,<view>,… ak=…
+                                  -> ok answered=<0/1 per datagram> kinds=<n|p|a per datagram> extra=0 sentinel=answered shape=ok
+                                     (a history on one listener socket that may contain authentic NTS requests of
+                                      several associations; <view> = <decodes 0|1>:<cookie ids a.b.c>:<cookie ids the rest of
+                                      the NTS branch succeeds under> — what the NTS branch sees of the datagram, computed by
+                                      the harness with the real nts/ntske functions on fresh structs; kinds: n no reply,
+                                      p plain 48-byte reply, a reply with NTS extension fields (the implementation side
+                                      says `a` only if the reply authenticates under the association's own S2C key, token ak=))
 -/
+def parseIds? (s : String) : Option (List Nat) :=
+  if s = "" then some [] else (s.splitOn ".").mapM parseNat?
+
+def parseView? (s : String) : Option NtsView :=
+  match s.splitOn ":" with
+  | [d, cs, oks] =>
+    match boolOfNat01? d, parseIds? cs, parseIds? oks with
+    | some d, some cs, some oks => some ⟨cs, d, fun c => oks.contains c⟩
+    | _, _, _ => none
+  | _ => none
+where boolOfNat01? (s : String) : Option Bool :=
+  if s = "0" then some false else if s = "1" then some true else none
+
 def boolOfNat? (s : String) : Option Bool :=
   if s = "0" then some false else if s = "1" then some true else none
 
@@ -66,6 +87,18 @@ def step (_ : Unit) (toks : List String) : Unit × String :=
       else
         let pat := String.ofList (ds.map fun d => if d = .reply then '1' else '0')
         ((), s!"ok answered={pat} extra=0 sentinel=answered shape=ok")
+    | _, _ => ((), "bad-op")
+  | ["ip.hist", hs, nv, _ak] =>
+    match (hs.splitOn ",").mapM parseHex?, (kv? [nv] "nv").bind (fun v => (v.splitOn ",").mapM parseView?) with
+    | some bs, some vs =>
+      if bs.length ≠ vs.length then ((), "bad-op") else
+      let ds := runLoopN true true (ipServerBufLen, []) (bs.zip vs)
+      if ds.any (fun d => match d with | .crash _ => true | _ => false) then ((), "panic crash")
+      else
+        let pat := String.ofList (ds.map fun d => if d = .reply then '1' else '0')
+        let kinds := String.ofList ((bs.zip ds).map fun (b, d) =>
+          if d = .reply then (if b.length > packetLen then 'a' else 'p') else 'n')
+        ((), s!"ok answered={pat} kinds={kinds} extra=0 sentinel=answered shape=ok")
     | _, _ => ((), "bad-op")
   | _ => ((), "bad-op")
 
